@@ -126,6 +126,10 @@ def generate(rng, config):
             ops.append({"op": "noop_read"})
         if rng.random() < 0.08:
             ops.append({"op": "nx_import", "seed": rng.randrange(2 ** 30)})
+        if rng.random() < 0.03:
+            # the history goes on with a copy of the graph object
+            ops.append({"op": "copy", "how": rng.choice(["deepcopy",
+                                                         "pickle", "copy"])})
     case["ops"] = ops
     return case
 
@@ -356,6 +360,26 @@ def execute(case, ctx):
                     refused += 1
         elif kind == "nx_import":
             _nx_import(type(G), ref, op["seed"], bad, bad_exc, ctx)
+        elif kind == "copy":
+            import copy as _copy
+            import pickle as _pickle
+            if op["how"] == "pickle":
+                r = call(lambda: _pickle.loads(_pickle.dumps(G)))
+            elif op["how"] == "copy":
+                # a shallow copy shares its containers with the original:
+                # it is only looked at, the history stays with the original
+                r = call(_copy.copy, G)
+            else:
+                r = call(_copy.deepcopy, G)
+            if r[0] == "exc":
+                ctx.note("graph cannot be copied with %s (%s)" %
+                         (op["how"], type(r[1]).__name__))
+            elif op["how"] == "copy":
+                graphviews.compare(r[1], ref, bad, bad_exc, deep=False)
+                ctx.probe("shallow copy compared")
+            else:
+                G = r[1]
+                ctx.fault("graph_replaced_by_its_copy:" + op["how"])
         ctx.log(i, kind, {k: v for k, v in op.items() if k != "op"},
                 ref.state() != before)
         graphviews.compare(G, ref, bad, bad_exc, deep=(i % 4 == 0 or
